@@ -508,6 +508,14 @@ func (r *runner) invoke(ctx context.Context, s M, ret M) {
 		setErr(err)
 		if err == nil {
 			ret["float"] = fmt.Sprintf("%.17g", v)
+			if e, ok := s["exp"].(map[string]any); ok {
+				if f, ok := e["formula"].(map[string]any); ok {
+					ref, cls := evalFormula(f)
+					ret["ref"] = fmt.Sprintf("%.17g", ref)
+					ret["refClass"] = cls
+					ret["floatOK"] = floatAgrees(v, ref)
+				}
+			}
 		}
 	default:
 		panic("harness: unknown api " + api)
